@@ -1042,7 +1042,20 @@ func c07r5(p *Program, r *Report) {
 				return true
 			}
 			nb, nr := 0, 0
+			stmts := append([]ast.Stmt{}, cc.Body...)
+			// a helper called from the clause that does the enqueueing
 			for _, st := range cc.Body {
+				if es, ok := st.(*ast.ExprStmt); ok {
+					if c, ok := es.X.(*ast.CallExpr); ok {
+						if fn := calleeOf(info, c); fn != nil {
+							if h := p.FuncOf(fn); h != nil && h.Pkg == p.Root && h.Decl.Body != nil {
+								stmts = append(stmts, h.Decl.Body.List...)
+							}
+						}
+					}
+				}
+			}
+			for _, st := range stmts {
 				if as, ok := st.(*ast.AssignStmt); ok && len(as.Rhs) == 1 {
 					if c, ok := as.Rhs[0].(*ast.CallExpr); ok && calleeName(info, c) == "builtin.append" {
 						t := info.TypeOf(as.Lhs[0])
